@@ -518,12 +518,17 @@ class Function:
     @classmethod
     def task_done_callback_ctx(cls, task, ast_ctx):
         """Set the ast_ctx for a task, which is needed for done callbacks."""
-        if task not in cls.task2cb or "ctx" not in cls.task2cb[task]:
+        if task not in cls.task2cb:
             cls.task2cb[task] = {"ctx": ast_ctx, "cb": {}}
+        elif "ctx" not in cls.task2cb[task]:
+            cls.task2cb[task]["ctx"] = ast_ctx
 
     @classmethod
     def task_add_done_callback(cls, task, ast_ctx, callback, *args, **kwargs):
         """Add a done callback to the given task."""
+        if task not in cls.task2cb:
+            # (not every task pyscript runs has an entry, eg the legacy shutdown trigger runs)
+            cls.task2cb[task] = {"cb": {}}
         if ast_ctx is None:
-            ast_ctx = cls.task2cb[task]["ctx"]
+            ast_ctx = cls.task2cb[task].get("ctx")
         cls.task2cb[task]["cb"][callback] = [ast_ctx, args, kwargs]
